@@ -68,10 +68,32 @@ def load_plugins(only=None):
         spec = importlib.util.spec_from_file_location("specs_" + fn[:-3], os.path.join(d, fn))
         m = importlib.util.module_from_spec(spec)
         spec.loader.exec_module(m)
-        if only and m.NS not in only:
-            continue
         plugs.append(m)
-    return plugs
+    # a plugin may name the generated modules it calls into (`AFTER = ["VarInt"]`): those are
+    # translated first (so their functions are in the registry) and are kept by an `only` filter
+    by_ns = {m.NS: m for m in plugs}
+    if only:
+        keep, todo = set(), list(only)
+        while todo:
+            ns = todo.pop()
+            if ns in keep or ns not in by_ns:
+                continue
+            keep.add(ns)
+            todo += list(getattr(by_ns[ns], "AFTER", []))
+        plugs = [m for m in plugs if m.NS in keep]
+    ordered, placed = [], set()
+
+    def place(m, stack=()):
+        if m.NS in placed or m.NS in stack:
+            return
+        for dep in getattr(m, "AFTER", []):
+            if dep in by_ns and by_ns[dep] in plugs:
+                place(by_ns[dep], stack + (m.NS,))
+        placed.add(m.NS)
+        ordered.append(m)
+    for m in plugs:
+        place(m)
+    return ordered
 
 
 def generate(only=None, quiet=False):
